@@ -240,6 +240,9 @@ func (e *StringExpr) Check(ctx *CheckCtx) error {
 }
 
 func (e *NotExpr) Check(ctx *CheckCtx) error {
+	if err := e.Right.Check(ctx); err != nil {
+		return err
+	}
 	if e.Right.ReturnType() != TBOOL {
 		return NewSyntaxError(e.Right.GetPos(), "! operator right expression has wrong type")
 	}
@@ -298,6 +301,11 @@ func (e *ListExpr) Check(ctx *CheckCtx) error {
 	if len(e.List) == 0 {
 		return NewSyntaxError(e.GetPos(), "Empty list")
 	}
+	for _, item := range e.List {
+		if err := item.Check(ctx); err != nil {
+			return err
+		}
+	}
 	if len(e.List) > 1 {
 		ftype := e.List[0].ReturnType()
 		for i, item := range e.List[1:] {
@@ -310,6 +318,9 @@ func (e *ListExpr) Check(ctx *CheckCtx) error {
 }
 
 func (e *FieldAccessExpr) Check(ctx *CheckCtx) error {
+	if err := e.Left.Check(ctx); err != nil {
+		return err
+	}
 	_, leftIsFAE := e.Left.(*FieldAccessExpr)
 	lrType := e.Left.ReturnType()
 	switch lrType {
